@@ -90,3 +90,299 @@ Proof.
            end.
     discriminate Ei.
 Qed.
+
+Lemma decl_of_name kv : sd_name (fst (decl_of kv)) = fst kv.
+Proof.
+  unfold decl_of. destruct (snd kv) as [i t vol|n|b|i t|i t|i t|i t vol|i t|]; try reflexivity;
+    destruct t as [[b|]|s|[n|]|]; reflexivity.
+Qed.
+
+Lemma sev_map evs : map (fun ev => mkSEv (ev_flag ev) (ev_body ev)) evs = map sev evs.
+Proof. reflexivity. Qed.
+
+(* a name outside the scope's keys *)
+Lemma new_scope_fresh n : is_builtin_name n = false -> sc_get (sc_named scope_new) n = None.
+Proof.
+  intros Hb. destruct (builtin_name_none _ Hb) as [Hp Hi].
+  destruct (sc_get (sc_named scope_new) n) as [r|] eqn:E; [|reflexivity]. exfalso.
+  destruct (si_class _ sinv_new _ _ E) as [Hv|(i & t & ->)].
+  - pose proof (si_bounds _ sinv_new _ _ E) as Hbd. pose proof (si_impl _ sinv_new n) as Him. rewrite Hi in Him.
+    destruct r; cbn in Hv; try discriminate Hv; cbn in Hbd; try lia. exact (Him _ _ E).
+  - pose proof (si_prims _ sinv_new n) as Hpm. rewrite Hp in Hpm. exact (Hpm _ _ E).
+Qed.
+
+(* lowering never emits a DEF *)
+Lemma set_last_res_ops is r is' : set_last_res is r = Some is' -> Forall (fun i => i_op i <> ODef) is ->
+  Forall (fun i => i_op i <> ODef) is'.
+Proof.
+  unfold set_last_res. destruct (rev is) as [|l before] eqn:E; [discriminate|]. intros H F. inversion H; subst.
+  assert (His : is = rev before ++ [l]) by (rewrite <- (rev_involutive is), E; reflexivity).
+  rewrite His in F. apply Forall_app in F. destruct F as [F1 F2]. apply Forall_app. split; [exact F1|].
+  inversion F2; subst. constructor; [cbn; assumption|constructor].
+Qed.
+
+Lemma compile_expr_no_def e : forall sc is r sc', compile_expr e sc = Ok (is, r, sc') -> Forall (fun i => i_op i <> ODef) is.
+Proof.
+  induction e as [p|c|o l IHl r0 IHr|]; intros sc is r sc' H.
+  - destruct p as [b|x|n]; [inversion H; constructor| |inversion H; constructor].
+    apply compile_atom_name in H. destruct H as (-> & _). constructor.
+  - discriminate H.
+  - apply compile_sexp_inv in H. destruct H as (is1 & lft & sc1 & is2 & rgt & sc2 & H1 & H2 & H3).
+    assert (F12 : Forall (fun i => i_op i <> ODef) (is1 ++ is2)) by (apply Forall_app; split; eauto).
+    destruct (is_valop o) eqn:Vo.
+    + apply lower_tail_valop in H3; auto. destruct H3 as (_ & -> & _). apply Forall_app. split; [exact F12|].
+      constructor; [|constructor]. cbn. destruct o; try discriminate Vo; discriminate.
+    + destruct (is_condop o) eqn:Co.
+      * apply lower_tail_condop in H3; auto. destruct H3 as (_ & -> & _). apply Forall_app. split; [exact F12|].
+        constructor; [|constructor]. cbn. destruct o; try discriminate Co; discriminate.
+      * destruct o; try discriminate Vo; try discriminate Co.
+        -- apply lower_tail_bind in H3. destruct H3 as (lft' & _ & _ & [(_ & _ & _ & Hs)|(-> & _)]).
+           ++ eapply set_last_res_ops; eauto.
+           ++ apply Forall_app. split; [exact F12|]. constructor; [discriminate|constructor].
+        -- discriminate H3.
+  - discriminate H.
+Qed.
+
+Lemma compile_flag_no_def e sc is sc' : compile_flag e sc = Ok (is, sc') -> Forall (fun i => i_op i <> ODef) is.
+Proof.
+  intros H. apply compile_flag_inv in H. destruct H as (is0 & res & fr & C0 & _ & [(b & -> & ->)|(j & t & _ & Hs)]).
+  - apply Forall_app. split; [eapply compile_expr_no_def; eauto|constructor; [discriminate|constructor]].
+  - eapply set_last_res_ops; [exact Hs|eapply compile_expr_no_def; eauto].
+Qed.
+
+Lemma opcode_def o : o <> ODef -> (opcode o =? 2) = false.
+Proof. intros H. destruct o; try reflexivity. congruence. Qed.
+
+(* distinct declared variables have distinct DEF registers *)
+Lemma def_slots_nodup l : keys_nodup l ->
+  (forall x y rx ry, In (x, rx) l -> In (y, ry) l -> var_class rx = true -> slot rx = slot ry -> x = y) ->
+  NoDup (map def_slot (def_instrs l)).
+Proof.
+  unfold keys_nodup. induction l as [|[x r] t IH]; intros Hk Hinj; [constructor|].
+  cbn [map fst] in Hk. inversion Hk as [|? ? Hni Hk']; subst.
+  assert (IHt : NoDup (map def_slot (def_instrs t))).
+  { apply IH; [exact Hk'|]. intros a b ra rb Ha Hb. apply Hinj; right; assumption. }
+  rewrite def_instrs_flat. cbn [flat_map snd]. rewrite <- def_instrs_flat.
+  destruct (def_of_reg r) as [i|] eqn:Ed; [|exact IHt].
+  cbn [app map]. constructor; [|exact IHt].
+  intros Hin. apply in_map_iff in Hin. destruct Hin as (i2 & Hs2 & Hi2).
+  apply def_instrs_in in Hi2. destruct Hi2 as (y & r2 & Hy & Hd2).
+  assert (Hres : i_res i = r /\ i_res i2 = r2 /\ var_class r = true).
+  { destruct r as [j ty vol|n|b|j ty|j ty|j ty|j ty vol|j ty|]; try discriminate Ed;
+      destruct ty as [[b|]|s|[n|]|]; try discriminate Ed; inversion Ed; subst;
+      destruct r2 as [j2 ty2 vol2|n2|b2|j2 ty2|j2 ty2|j2 ty2|j2 ty2 vol2|j2 ty2|]; try discriminate Hd2;
+      destruct ty2 as [[b2|]|s2|[n2|]|]; try discriminate Hd2; inversion Hd2; subst; repeat split. }
+  destruct Hres as (R1 & R2 & Hv). unfold def_slot in Hs2. rewrite R1, R2 in Hs2.
+  assert (x = y) by (eapply (Hinj x y r r2); [left; reflexivity|right; exact Hy|exact Hv|congruence]).
+  subst y. apply Hni. apply in_map_iff. exists (x, r2). split; [reflexivity|exact Hy].
+Qed.
+
+Section Static.
+  Variables (reports controls : list (bool * name * ty)) (sc1 sc0 scF : scope).
+  Variables (evs : list event) (devs : list Lower.devent) (eis : list instr) (image : list N).
+  Let defs := def_instrs (sc_named sc0).
+  Let decls := map fst (decls_of_scope sc0).
+  Let tys := map snd (decls_of_scope sc0).
+  Let p := mkSP decls (map sev evs).
+
+  Hypothesis Hd1 : declare new_report reports scope_new = Ok sc1.
+  Hypothesis Hd2 : declare new_control controls sc1 = Ok sc0.
+  Hypothesis Hev : compile_events evs sc0 (N.of_nat (length defs)) = Ok (devs, eis, scF).
+  Hypothesis Hser : serialize_bin (mkBin devs (defs ++ eis)) = Ok image.
+  Hypothesis Hwt : wt_prog p tys = true.
+  Hypothesis Hcl : clobbers_prog p = false.
+  Hypothesis Hleg : legacy_inf_prog p = false.
+
+  Lemma decls_entries : decls_of_scope sc0 = map decl_of (decl_entries reports controls).
+  Proof.
+    unfold decls_of_scope. destruct (entries_of_declarations _ _ _ _ Hd1 Hd2) as (He & _). rewrite He. reflexivity.
+  Qed.
+
+  Lemma decls_names : map sd_name decls = names_of reports ++ names_of controls.
+  Proof.
+    unfold decls. rewrite decls_entries, !map_map. rewrite <- decl_entries_names.
+    apply map_ext. intros kv. apply decl_of_name.
+  Qed.
+
+  (* the seven clauses of the typing discipline *)
+  Lemma wt_clauses :
+    (forall d, In d decls -> sd_init d <> None) /\
+    NoDup (names_of reports ++ names_of controls) /\
+    (forall n, In n (names_of reports ++ names_of controls) -> is_builtin_name n = false /\ is_builtin n = false) /\
+    evs <> [] /\
+    ty_events (decl_tenv decls tys ++ builtin_tenv) (map sev evs) = true.
+  Proof.
+    pose proof Hwt as W. unfold wt_prog in W. cbn [sp_decls sp_events] in W.
+    apply andb_true_iff in W. destruct W as [W W7]. apply andb_true_iff in W. destruct W as [W W6].
+    apply andb_true_iff in W. destruct W as [W W5]. apply andb_true_iff in W. destruct W as [W W4].
+    apply andb_true_iff in W. destruct W as [W W3]. apply andb_true_iff in W. destruct W as [W1 W2].
+    split; [|split; [|split; [|split]]].
+    - intros d Hd. rewrite forallb_forall in W2. specialize (W2 _ Hd). destruct (sd_init d); [discriminate|discriminate W2].
+    - rewrite <- decls_names. apply nodup_names_spec. exact W3.
+    - intros n Hn. rewrite <- decls_names in Hn. apply in_map_iff in Hn. destruct Hn as (d & <- & Hd).
+      rewrite forallb_forall in W4, W5. specialize (W4 _ Hd). specialize (W5 _ Hd).
+      apply wt_name_not_builtin.
+      + destruct (tget builtin_tenv (sd_name d)); [discriminate W4|reflexivity].
+      + apply negb_true_iff in W5. exact W5.
+    - intros ->. cbn in W6. discriminate W6.
+    - exact W7.
+  Qed.
+
+  Lemma names_fresh_1 : forall n, In n (names_of reports) -> sc_get (sc_named scope_new) n = None /\ is_builtin_name n = false.
+  Proof.
+    destruct wt_clauses as (_ & _ & Hnb & _). intros n Hn.
+    destruct (Hnb n (in_or_app _ _ _ (or_introl Hn))) as [Hb _]. split; [apply new_scope_fresh; exact Hb|exact Hb].
+  Qed.
+
+  Lemma names_fresh_2 : forall n, In n (names_of controls) -> sc_get (sc_named sc1) n = None /\ is_builtin_name n = false.
+  Proof.
+    destruct wt_clauses as (_ & Hnd & Hnb & _). intros n Hn.
+    destruct (Hnb n (in_or_app _ _ _ (or_intror Hn))) as [Hb _]. split; [|exact Hb].
+    destruct (nodup_app _ _ Hnd) as (Hnd1 & _ & Hdisj).
+    destruct (declare_report_spec _ _ _ Hd1 Hnd1 (fun m Hm => proj1 (names_fresh_1 m Hm))) as (_ & _ & _ & _ & _ & Hoth).
+    rewrite Hoth; [apply new_scope_fresh; exact Hb|]. intros Hi. exact (Hdisj n Hi Hn).
+  Qed.
+
+  Lemma sinv_sc0 : sinv sc0.
+  Proof.
+    destruct wt_clauses as (_ & Hnd & _). destruct (nodup_app _ _ Hnd) as (Hnd1 & Hnd2 & _).
+    assert (S1 : sinv sc1).
+    { eapply (declare_sinv new_report); [|exact Hd1|exact sinv_new|exact Hnd1|exact names_fresh_1].
+      intros sc v n t r sc' S Hn Hb H. split; [eapply sinv_new_report; eauto|eapply new_report_other; eauto]. }
+    eapply (declare_sinv new_control); [|exact Hd2|exact S1|exact Hnd2|exact names_fresh_2].
+    intros sc v n t r sc' S Hn Hb H. split; [eapply sinv_new_control; eauto|eapply new_control_other; eauto].
+  Qed.
+
+  Lemma sinv_scF : sinv scF.
+  Proof. eapply compile_events_sinv; [exact Hev|exact sinv_sc0]. Qed.
+
+
+  Lemma sc0_get_report k v n t : nth_error reports k = Some (v, n, t) ->
+    sc_get (sc_named sc0) n = Some (Report (N.of_nat k) t v).
+  Proof.
+    destruct wt_clauses as (_ & Hnd & Hnb & _).
+    destruct (declarations_scope _ _ _ _ Hd1 Hd2 Hnd (fun m Hm => proj2 (Hnb m Hm))) as (Hr & _). apply Hr.
+  Qed.
+
+  Lemma sc0_get_control k v n t : nth_error controls k = Some (v, n, t) ->
+    sc_get (sc_named sc0) n = Some (Control (N.of_nat k) t v).
+  Proof.
+    destruct wt_clauses as (_ & Hnd & Hnb & _).
+    destruct (declarations_scope _ _ _ _ Hd1 Hd2 Hnd (fun m Hm => proj2 (Hnb m Hm))) as (_ & Hc & _). apply Hc.
+  Qed.
+
+  Lemma decl_entry_cases kv : In kv (decl_entries reports controls) ->
+    (exists k v n t, nth_error reports k = Some (v, n, t) /\ kv = (n, Report (N.of_nat k) t v)) \/
+    (exists k v n t, nth_error controls k = Some (v, n, t) /\ kv = (n, Control (N.of_nat k) t v)).
+  Proof.
+    unfold decl_entries. intros Hin. apply in_app_or in Hin. destruct Hin as [Hin|Hin]; apply in_map_iff in Hin;
+      destruct Hin as (k & Hk & Hs); apply in_seq in Hs.
+    - left. destruct (nth_error reports k) as [[[v n] t]|] eqn:E; [|apply nth_error_None in E; lia]. eauto 8.
+    - right. destruct (nth_error controls k) as [[[v n] t]|] eqn:E; [|apply nth_error_None in E; lia]. eauto 8.
+  Qed.
+
+  Lemma decl_entry_in_sc0 kv : In kv (decl_entries reports controls) -> sc_get (sc_named sc0) (fst kv) = Some (snd kv).
+  Proof.
+    intros Hin. destruct (decl_entry_cases _ Hin) as [(k & v & n & t & Hk & ->)|(k & v & n & t & Hk & ->)]; cbn [fst snd].
+    - eapply sc0_get_report; eauto.
+    - eapply sc0_get_control; eauto.
+  Qed.
+
+  (* every report / control entry of the scope is a declaration *)
+  Lemma sc0_perm_entry x r : In (x, r) (sc_named sc0) -> is_perm r -> In (x, r) (decl_entries reports controls).
+  Proof.
+    intros Hin Hp.
+    assert (Hget : sc_get (sc_named sc0) x = Some r) by (apply sinv_unique; [exact sinv_sc0|exact Hin]).
+    destruct (declare_control_in _ _ _ Hd2 _ Hin) as [Hin1|(v & n & t & i & He & Hc)].
+    - destruct (declare_report_in _ _ _ Hd1 _ Hin1) as [Hin0|(v & n & t & i & He & Hc)].
+      + exfalso. change (sc_named scope_new) with entries_new in Hin0.
+        assert (H : Forall (fun kv : name * reg => match snd kv with Report _ _ _ | Control _ _ _ => False | _ => True end) entries_new)
+          by (vm_compute; repeat (constructor; [exact I|]); constructor).
+        rewrite Forall_forall in H. specialize (H _ Hin0). cbn in H. destruct r; try contradiction.
+      + inversion He; subst x r. apply In_nth_error in Hc. destruct Hc as (k & Hk).
+        pose proof (sc0_get_report _ _ _ _ Hk) as G. rewrite Hget in G. inversion G; subst i.
+        unfold decl_entries. apply in_or_app. left. apply in_map_iff. exists k. rewrite Hk. split; [reflexivity|].
+        apply in_seq. assert (k < length reports)%nat by (apply nth_error_Some; rewrite Hk; discriminate). lia.
+    - inversion He; subst x r. apply In_nth_error in Hc. destruct Hc as (k & Hk).
+      pose proof (sc0_get_control _ _ _ _ Hk) as G. rewrite Hget in G. inversion G; subst i.
+      unfold decl_entries. apply in_or_app. right. apply in_map_iff. exists k. rewrite Hk. split; [reflexivity|].
+      apply in_seq. assert (k < length controls)%nat by (apply nth_error_Some; rewrite Hk; discriminate). lia.
+  Qed.
+
+
+  Lemma all_within : Forall instr_within (defs ++ eis).
+  Proof.
+    unfold serialize_bin in Hser. apply bind_ok_inv in Hser. destruct Hser as (bs & Hs & _). cbn [b_instrs] in Hs.
+    pose proof (serialized_instrs_within _ _ Hs) as H. exact H.
+  Qed.
+
+  Lemma sextF : sext (sc_named sc0) (sc_named scF).
+  Proof. eapply compile_events_mono; eauto. Qed.
+
+  Definition lit_of (t : ty) : option N :=
+    match t with TNum (Some n) => Some n | TBool (Some b) => Some (if b then 1 else 0) | _ => None end.
+
+  Lemma decl_in_decls kv : In kv (decl_entries reports controls) -> In (fst (decl_of kv)) decls.
+  Proof. intros Hin. unfold decls. rewrite decls_entries, map_map. apply in_map_iff. exists kv. auto. Qed.
+
+  Lemma legacy_false d n : In d decls -> sd_init d = Some n -> n <> 1073741823.
+  Proof.
+    intros Hd Hi. pose proof Hleg as L. unfold legacy_inf_prog, p in L. cbn [sp_decls] in L.
+    intros ->. assert (existsb (fun d => match sd_init d with Some v => v =? 1073741823 | None => false end) decls = true); [|congruence].
+    apply existsb_exists. exists d. split; [exact Hd|]. rewrite Hi. reflexivity.
+  Qed.
+
+  (* everything about one declared variable *)
+  Lemma perm_entry_facts x r : In (x, r) (decl_entries reports controls) ->
+    exists i v0 r', def_of_reg r = Some i /\ In i defs /\ In (fst (decl_of (x, r))) decls /\
+      sd_name (fst (decl_of (x, r))) = x /\ sd_init (fst (decl_of (x, r))) = Some v0 /\
+      sc_get (sc_named scF) x = Some r' /\ dreg_of r' = dreg_of (i_res i) /\ i_res i = r /\
+      legacy (def_val (i_right i)) = init_value v0 /\ reg_vol r = sd_vol (fst (decl_of (x, r))) /\
+      reg_is_report r = sd_report (fst (decl_of (x, r))) /\ init_value v0 < W64.
+  Proof.
+    intros Hin. pose proof (decl_in_decls _ Hin) as Hd.
+    destruct wt_clauses as (Hinit & _). specialize (Hinit _ Hd).
+    pose proof (decl_entry_in_sc0 _ Hin) as Hget. cbn [fst snd] in Hget.
+    destruct (sextF _ _ Hget) as (r' & GF & HdF).
+    assert (Hperm : is_perm r) by (destruct (decl_entry_cases _ Hin) as [(k&v&n&t&_&E)|(k&v&n&t&_&E)]; inversion E; exact I).
+    assert (Hdef : forall i, def_of_reg r = Some i -> In i defs).
+    { intros i Hi. unfold defs. apply def_instrs_in. exists x, r. split; [apply get_in; exact Hget|exact Hi]. }
+    assert (Hw : forall i, In i defs -> instr_within i).
+    { intros i Hi. pose proof all_within as W. rewrite Forall_forall in W. apply W. apply in_or_app. left. exact Hi. }
+    destruct r as [j ty vol|n|b|j ty|j ty|j ty|j ty vol|j ty|]; try contradiction;
+      destruct ty as [[b|]|s|[n|]|]; cbn [decl_of snd fst sd_init] in Hinit; try congruence.
+    - (* control, boolean *)
+      eexists _, _, r'. split; [reflexivity|]. split; [apply Hdef; reflexivity|]. split; [exact Hd|].
+      cbn [decl_of snd fst sd_name sd_init sd_vol sd_report i_res i_right def_val reg_vol reg_is_report].
+      repeat split; auto. destruct b; reflexivity. destruct b; unfold init_value, lit_value, W64; cbn; lia.
+    - (* control, number *)
+      assert (Hn : n < 2147483648 \/ n = U64_MAX).
+      { destruct (Hw _ (Hdef _ eq_refl)) as (_ & _ & Wr). exact Wr. }
+      assert (Hl : n <> 1073741823) by (eapply legacy_false; [exact Hd|reflexivity]).
+      eexists _, _, r'. split; [reflexivity|]. split; [apply Hdef; reflexivity|]. split; [exact Hd|].
+      cbn [decl_of snd fst sd_name sd_init sd_vol sd_report i_res i_right def_val reg_vol reg_is_report].
+      repeat split; auto.
+      + unfold legacy, init_value, lit_value. destruct Hn as [Hn| ->].
+        * rewrite N.mod_small by lia. destruct (n =? 1073741823) eqn:E1; [apply N.eqb_eq in E1; contradiction|].
+          destruct (n =? 18446744073709551615) eqn:E2; [apply N.eqb_eq in E2; lia|reflexivity].
+        * reflexivity.
+      + unfold init_value, lit_value. destruct (n =? 18446744073709551615); unfold INF32, W64, U64_MAX in *; lia.
+    - (* report, boolean *)
+      eexists _, _, r'. split; [reflexivity|]. split; [apply Hdef; reflexivity|]. split; [exact Hd|].
+      cbn [decl_of snd fst sd_name sd_init sd_vol sd_report i_res i_right def_val reg_vol reg_is_report].
+      repeat split; auto. destruct b; reflexivity. destruct b; unfold init_value, lit_value, W64; cbn; lia.
+    - (* report, number *)
+      assert (Hn : n < 2147483648 \/ n = U64_MAX).
+      { destruct (Hw _ (Hdef _ eq_refl)) as (_ & _ & Wr). exact Wr. }
+      assert (Hl : n <> 1073741823) by (eapply legacy_false; [exact Hd|reflexivity]).
+      eexists _, _, r'. split; [reflexivity|]. split; [apply Hdef; reflexivity|]. split; [exact Hd|].
+      cbn [decl_of snd fst sd_name sd_init sd_vol sd_report i_res i_right def_val reg_vol reg_is_report].
+      repeat split; auto.
+      + unfold legacy, init_value, lit_value. destruct Hn as [Hn| ->].
+        * rewrite N.mod_small by lia. destruct (n =? 1073741823) eqn:E1; [apply N.eqb_eq in E1; contradiction|].
+          destruct (n =? 18446744073709551615) eqn:E2; [apply N.eqb_eq in E2; lia|reflexivity].
+        * reflexivity.
+      + unfold init_value, lit_value. destruct (n =? 18446744073709551615); unfold INF32, W64, U64_MAX in *; lia.
+  Qed.
+
+End Static.
